@@ -425,6 +425,31 @@ def _while_true_pass(fn) -> bool:
             n.test = ast.copy_location(ast.Name(id=flag, ctx=ast.Load()), last.test)
             n.body = n.body[:-1]
             changed = True
+    # `while True: if C: TAIL; return X` + REST (no break) is `while not C: REST` followed by `TAIL; return X`
+    again = True
+    rounds = 0
+    while again and rounds < 10:
+        again = False
+        rounds += 1
+        for owner, field, lst in list(_stmt_lists(fn)):
+            for i, n in enumerate(lst):
+                if not (isinstance(n, ast.While) and isinstance(n.test, ast.Constant) and n.test.value is True and not n.orelse and len(n.body) >= 2):
+                    continue
+                first = n.body[0]
+                if not (isinstance(first, ast.If) and not first.orelse and len(first.body) >= 2 and isinstance(first.body[-1], ast.Return)):
+                    continue
+                if breaks_of(n) or any(isinstance(x, ast.Continue) for x in ast.walk(first)):
+                    continue
+                tail = list(first.body)
+                n.test = ast.copy_location(ast.UnaryOp(op=ast.Not(), operand=first.test), first.test)
+                n.body = n.body[1:]
+                ast.fix_missing_locations(n)
+                setattr(owner, field, lst[:i + 1] + tail)  # what followed the endless loop was unreachable
+                changed = True
+                again = True
+                break
+            if again:
+                break
     for n in list(ast.walk(fn)):
         if isinstance(n, ast.While) and isinstance(n.test, ast.Constant) and n.test.value is True and not n.orelse and n.body:
             first = n.body[0]
